@@ -37,3 +37,32 @@ def replay_processor(proc, bit, n, other, enc):
             if isinstance(val, str) and val is not want and secret in val:
                 return True, 'clear PAN appears in %s' % k, 'C16/leak'
     return False, 'ok', None
+
+
+def replay_maskdigits(digits, mask):
+    from cardutil import card
+    n = len(digits)
+    out = card.mask(digits, mask)
+    bad = len(out) != n or out[:6] != digits[:6] or out[n - 4:] != digits[n - 4:] or out[6:n - 4] != mask * (n - 10)
+    return bad, 'mask(%s) -> %r' % (digits, out), 'C16/mask'
+
+
+def replay_typed(proc, bit, pytype, pan):
+    from cardutil import iso8583
+    from cardutil.config import config
+    cfgs = copy.deepcopy(config['bit_config'])
+    cfgs[str(bit)]['field_processor'] = proc
+    if pytype:
+        cfgs[str(bit)]['field_python_type'] = pytype
+    wire = iso8583.dumps({'MTI': '1240', 'DE%d' % bit: pan}, iso_config=cfgs)
+    try:
+        d = iso8583.loads(wire, iso_config=cfgs)
+    except iso8583.Iso8583DataError:
+        return False, 'library error, no dictionary', None
+    if pytype in ('int', 'long'):
+        pan = pan.zfill(cfgs[str(bit)].get('field_length', 0))
+    want = (pan[:6] + '*' * (len(pan) - 10) + pan[-4:]) if proc == 'PAN' else pan[:9]
+    got = d.get('DE%d' % bit)
+    if str(got) != want and not (pytype in ('int', 'long') and proc == 'PAN-PREFIX' and got == int(want)):
+        return True, '%s with python type %s: DE%d came back as %r (clear PAN %s)' % (proc, pytype, bit, got, pan), 'C16/proc-value'
+    return False, 'ok', None
